@@ -739,7 +739,18 @@ inductive Ev
   /-- more than `supybot.databases.users.timeoutIdentification` seconds pass (the setting is not
   zero): every login made so far has expired (`IrcUser.checkHostmask` drops them when it next looks) -/
   | expire
+  /-- the bot is stopped and started again: `world.flush()` on the way out; the new process has
+  nothing left in the reader classes (`IrcUserCreator.u`, `IrcChannelCreator.name`) and reads the
+  databases (written in the orders `uo`, `co`, see `order`) -/
+  | restart (uo : List (Nat × List Str)) (co : List (Str × List Str))
 deriving Repr
+
+/-- the state a stopping bot leaves behind for the next process: everything saved, no leftovers
+in the reader classes -/
+def restartPrep (cfg : Cfg) (st : St) : St := { flushAllSt cfg st with cu := none, cname := none }
+
+def restartSt (cfg : Cfg) (st : St) (uo : List (Nat × List Str)) (co : List (Str × List Str)) : St :=
+  reloadSt cfg ((restartPrep cfg st).fileOrder uo co)
 
 def stepEv (cfg : Cfg) (st : St) : Ev → St
   | .cmd pfx c => (step cfg st pfx c none).1
@@ -749,6 +760,7 @@ def stepEv (cfg : Cfg) (st : St) : Ev → St
      | none => st)
   | .order uo co => st.fileOrder uo co
   | .expire => { st with auth := [] }
+  | .restart uo co => restartSt cfg st uo co
 
 def runEv (cfg : Cfg) (st : St) : List Ev → St
   | [] => st
